@@ -94,9 +94,18 @@ def select_jobs(ctx, jobs, quick, rnd):
     return sel
 
 
+def selftest(modules):
+    """the ASSUMEd vectors of the data layer, evaluated once per check (the trace specifications INSTANCE the data layer, which skips them)"""
+    for m in modules:
+        r = tlc.run(m, cfg_text="", workers=1, timeout=900)
+        if not (r.ok and not r.errors):
+            raise core.Machinery("data-layer self-test of %s failed:\n%s" % (m, r.out[-2000:]))
+
+
 def run(ctx):
     quick = ctx.tier == "quick"
     rnd = random.Random(ctx.seed * 7919 + 14)
+    selftest(["BigInt"])                   # BigInt EXTENDS BigNat: both sets of vectors
     # 1. the operation x shape classes, enumerated by TLC from the system-layer model (shared with C16)
     r = ctx.mc("Backends", "Backends_quick.cfg" if quick else "Backends_thorough.cfg", workers=4, timeout=900)
     jobs = [json.loads(tlc.tla_string_to_py(p)) for p in r.prints("JOB")]
@@ -232,8 +241,8 @@ def run(ctx):
         ctx.binding_selfcheck("BigIntTrace", first("gen"), lambda t: (t["obs"][0]["v"].append(1), t)[1], "primality: generated prime one limb too long")
     ctx.rule = ("operation x operand-shape classes enumerated by TLC from sys/Backends (sign x {0, 1, 2, 5 bits, 4095/4096, 65534..65537, 31/32/33, 63/64/65 bits, "
                 "2^32, 2^63, 2^(64k)+-1 for k = 1, 2, 4, all-ones 192/1024/2048 bits, random 127/521/1024/2048 bits%s}, moduli zero/one/negative/even/odd/2^64, "
-                "shift counts around limb and word boundaries up to 65536); every job marked `must` (degenerate operands, precondition violations) plus a seeded "
-                "sample per operation, each run on 3 back-ends x (int | Integer operand) x (in place | not); one evaluation = one library call judged by TLC; "
+                "shift counts around limb and word boundaries up to 65536); quick: every job marked `must` (degenerate operands, precondition violations) plus a "
+                "seeded sample per operation; thorough: every enumerated job once (operand values of a class drawn from the seed); each job runs on 3 back-ends x (int | Integer operand) x (in place | not); one evaluation = one library call judged by TLC; "
                 "distinct = distinct (operation, operands) inside the documented domain; primality: %d jobs from the recorder's tables (table primes, Carmichael, "
                 "strong/Lucas pseudoprimes, squares, close primes, generation sizes)" % ("" if quick else ", 3072/4096 bits", counts["prime"]))
     ctx.assume("TLC is used as reference evaluator (exploration, not state-space search): spec/data/BigNat.tla and BigInt.tla are right; they are pinned by "
